@@ -1,6 +1,6 @@
 (** C10 — changing representation loses nothing: the obligations, written out in full. *)
 From Coq Require Import List NArith ZArith String.
-From SK Require Import lib.LGraph lib.StrJoin model.C10_Model proof.C10_Proof proof.C10_Hydrogen proof.C10_Routes proof.C10_GmlWrite proof.C10_HRound proof.C10_Routes2 proof.C10_Reindex proof.C10_MolGraph proof.C10_Smart proof.C10_GmlEH.
+From SK Require Import lib.LGraph lib.StrJoin model.C10_Model proof.C10_Proof proof.C10_Hydrogen proof.C10_Routes proof.C10_GmlWrite proof.C10_HRound proof.C10_Routes2 proof.C10_Reindex proof.C10_MolGraph proof.C10_Smart proof.C10_GmlEH proof.C10_Select proof.C10_MolOk.
 Import ListNotations.
 Local Open Scope Z_scope.
 
@@ -254,3 +254,43 @@ Theorem C10_h_roundtrip_nodes :
     (forall u v, adj g' u v = adj g u v).
 Proof. exact h_roundtrip_nodes. Qed.
 Print Assumptions C10_h_roundtrip_nodes.
+
+(** Options: attribute selections (node_attrs / edge_attrs of smiles_to_graph, rsmi_to_graph, MolToGraph).  The model is a
+    pure function of (molecule, flags, selection): a conversion cannot depend on what was converted before (the history
+    cases of the harness test exactly this of the implementation).  Keeping every key is the unselected conversion;
+    selecting twice is selecting the intersection, in either order; and every selection that keeps element, hcount, charge
+    and atom_map (the default one does; 'aromatic' and 'neighbors' may go) hands RDKit back exactly the same molecule. *)
+Theorem C10_select_all :
+  forall (m : rmol) (drop ui : bool), mol_to_graph_sel m drop ui asel_all true = mol_to_graph m drop ui.
+Proof. exact select_all. Qed.
+Print Assumptions C10_select_all.
+
+Theorem C10_select_twice :
+  forall (s t : asel) (ks kt : bool) (g : gr),
+    sel_graph s ks (sel_graph t kt g) =
+    sel_graph (AS (k_el s && k_el t) (k_ar s && k_ar t) (k_hc s && k_hc t) (k_ch s && k_ch t) (k_am s && k_am t)) (ks && kt) g.
+Proof. exact select_twice. Qed.
+Print Assumptions C10_select_twice.
+
+Theorem C10_graph_to_mol_selection :
+  forall (s : asel) (g : gr), k_el s = true -> k_hc s = true -> k_ch s = true -> k_am s = true ->
+    graph_to_mol (sel_graph s true g) = graph_to_mol g.
+Proof. exact graph_to_mol_sel. Qed.
+Print Assumptions C10_graph_to_mol_selection.
+
+(** The graphs rsmi_to_graph builds (drop_non_aam=True, use_index_as_atom_map=True) from an RDKit molecule with element
+    symbols in [A-Za-z*]+, RDKit bond types and distinct map numbers ([rdmol_ok], a contract about RDKit output monitored per
+    case) are molecule graphs: the premises [mol_ok] of C10_smart_roundtrip hold for them. *)
+Theorem C10_rsmi_graph_mol_ok :
+  forall m : rmol, rdmol_ok m = true -> mol_ok (mol_to_graph m true true) = true.
+Proof. exact rsmi_graph_mol_ok. Qed.
+Print Assumptions C10_rsmi_graph_mol_ok.
+
+(** KNOWN FINDING graph_to_smi:preserve_atom_maps:bare-hydrogen-dropped (code kept as it is): with a non-empty preserve
+    list graph_to_smi drops hydrogens that have no heavy neighbour — H2 (total hydrogen count 2) is handed to RDKit as the
+    empty molecule, while without a preserve list it is not. *)
+Theorem C10_preserve_bare_h_refuted :
+  exists (g : gr) (pres : list Z), gwfb g = true /\ total_h g = 2 /\
+    graph_to_smi_mol g [] <> Some ([], []) /\ graph_to_smi_mol g pres = Some ([], []).
+Proof. exact preserve_bare_h_refuted. Qed.
+Print Assumptions C10_preserve_bare_h_refuted.
